@@ -28,13 +28,20 @@ FcAssignments == [FcKeys -> BOOLEAN]
 (* ------------------------------------------------------------------------------------------------------
    Evaluated nodes.  [st: V, kind: "rc"|"hint"|"fc"|"comp", fcx: FC-expression AST, hint: Seq(hint keys)]
    fcx:  NilT | <<"fc", k>> | <<op, x, y>>  with op in {"and","or","xor"}  (what the code keeps as a string)
-   hint: the hint keys whose texts the node carries, in order (wording is not modelled)
+   hint: the hint keys whose texts the node carries, in order
+   htx:  how the texts are worded (HintExpressionBuilder; no listed property fixes the wording - compared only by ./check-extras):
+         <<"none">> | <<"h", key>> | <<"und", x, y>> | <<"oder", x, y>> | <<"entweder", x, y>>   ("X und Y", "X oder Y", "Entweder (X) oder (Y)")
    ------------------------------------------------------------------------------------------------------ *)
+HNone == <<"none">>
+HJoin(w, x, y) == IF y = HNone THEN x ELSE IF x = HNone THEN y ELSE <<w, x, y>>
+RECURSIVE HKeys(_)
+HKeys(x) == IF x = HNone THEN <<>> ELSE IF x[1] = "h" THEN <<x[2]>> ELSE HKeys(x[2]) \o HKeys(x[3])
 LeafNode(kind, key, a) ==
   [st   |-> IF kind = "rc" THEN a[key] ELSE "N",
    kind |-> kind,
    fcx  |-> IF kind = "fc" THEN <<"fc", key>> ELSE NilT,
-   hint |-> IF kind = "hint" THEN <<key>> ELSE <<>>]
+   hint |-> IF kind = "hint" THEN <<key>> ELSE <<>>,
+   htx  |-> IF kind = "hint" THEN <<"h", key>> ELSE HNone]
 
 \* FormatConstraintExpressionBuilder._connect: parts without format constraints have no effect
 Conj(op, x, y) == IF x = NilT THEN y ELSE IF y = NilT THEN x ELSE <<op, x, y>>
@@ -42,7 +49,8 @@ Conj(op, x, y) == IF x = NilT THEN y ELSE IF y = NilT THEN x ELSE <<op, x, y>>
 AndNode(l, r) ==
   LET s == And4(l.st, r.st) IN
   [st |-> s, kind |-> "comp", fcx |-> Conj("and", l.fcx, r.fcx),
-   hint |-> IF s = "U" THEN <<>> ELSE l.hint \o r.hint]      \* hints are kept unless the branch is unfulfilled
+   hint |-> IF s = "U" THEN <<>> ELSE l.hint \o r.hint,      \* hints are kept unless the branch is unfulfilled
+   htx  |-> IF s = "U" THEN HNone ELSE HJoin("und", l.htx, r.htx)]
 
 \* _or_xor_composition raises InvalidExpressionError
 OrXorInvalid(l, r) == \/ (l.kind = "hint" /\ r.kind = "fc")
@@ -50,7 +58,8 @@ OrXorInvalid(l, r) == \/ (l.kind = "hint" /\ r.kind = "fc")
                       \/ ((l.st = "N") # (r.st = "N"))
 
 OrXorNode(op, l, r) ==
-  [st |-> Apply(op, l.st, r.st), kind |-> "comp", fcx |-> Conj(op, l.fcx, r.fcx), hint |-> l.hint \o r.hint]
+  [st |-> Apply(op, l.st, r.st), kind |-> "comp", fcx |-> Conj(op, l.fcx, r.fcx), hint |-> l.hint \o r.hint,
+   htx |-> HJoin(IF op = "or" THEN "oder" ELSE "entweder", l.htx, r.htx)]
 
 \* then_also_composition: the format constraint is the left operand if that is an FC leaf, else the right one
 ThenFc(l, r)    == IF l.kind = "fc" THEN l ELSE r
@@ -64,8 +73,8 @@ ThenNode(l, r) ==
            \* the attached constraint takes part only if the partner is FULFILLED; the partner's own
            \* constraints are kept in any case (repaired in /repo by "fix: a format constraint attached ...")
            fcx |-> IF ot.st = "F" THEN Conj("and", fc.fcx, ot.fcx) ELSE ot.fcx,
-           hint |-> <<>>]                       \* the code drops the partner's hint here (DESIGN 7.7b; no property)
-     ELSE [st |-> "N", kind |-> "comp", fcx |-> Conj("and", fc.fcx, ot.fcx), hint |-> ot.hint]
+           hint |-> <<>>, htx |-> HNone]        \* the code drops the partner's hint here (DESIGN 7.7b; no property)
+     ELSE [st |-> "N", kind |-> "comp", fcx |-> Conj("and", fc.fcx, ot.fcx), hint |-> ot.hint, htx |-> ot.htx]
 
 \* requirement_constraint_evaluation: state of the root -> (fulfilled, is_conditional)
 Outcome(st) == CASE st = "F" -> <<"true", "true">>
@@ -204,6 +213,8 @@ FcxWellFormed(x) == \/ x = NilT
    ------------------------------------------------------------------------------------------------------ *)
 TypeOK == /\ Len(stack) = Len(trees) \/ (err # Nil /\ Len(stack) = Len(trees) - 1)
           /\ \A i \in 1..Len(stack) : stack[i].st \in V
+\* the wording carries exactly the hints of the node, in order
+HintTextCarriesTheHints == \A i \in 1..Len(stack) : HKeys(stack[i].htx) = stack[i].hint
 
 \* C04
 MachineAgreesWithDen == (err = Nil) => \A i \in 1..Len(stack) : stack[i].st = Den(trees[i], asg)
